@@ -304,7 +304,7 @@ def streams(tier, rng):
         if ecodes != we:
             return [('error-code-units', 'message %r: queued errors %s, unit by unit the property gives %s' % (msg, ecodes, we))]
         return []
-    yield {'name': 'multi-unit', 'cases': cases, 'project': project, 'oracle': morc, 'nontrivial': lambda c, o: c if ' E-' in o else None}
+    yield {'name': 'multi-unit', 'coqcheck': True, 'cases': cases, 'project': project, 'oracle': morc, 'nontrivial': lambda c, o: c if ' E-' in o else None}
     cases, want = retval_cases(rng, 1500 if tier == 'quick' else 20000)
 
     def orc3(case, out):
